@@ -86,7 +86,7 @@ struct Run {
 	uint64_t shash = 1469598103934665603ULL; long steps = 0, handovers = 0;
 	int cur_sender = -1; std::string cur_bpay; int cur_bsent = 0;     // Broadcast in progress
 	long sends_in_call = 0, nonchatter_sends = 0, deliv_in_call = 0;
-	bool quiescent = false, chatter_cut = false, capped = false;
+	bool quiescent = false, capped = false, flood = false; long retrieves = 0;
 	std::map<std::string, long long> cnt;
 	// ---- monitor state
 	std::vector<std::vector<int>> nb;                                 // nb[p][ctx] broadcasts so far
@@ -209,6 +209,7 @@ void Run::on_send(int p, int to, const Tup &f) {
 	int mi = add_msg(f, p, to, false); long act = msgs[mi].act;
 	ev.push_back({'S', p, to, mi, 0, ""}); sends_in_call++;
 	if (act != 6 && act != 8) nonchatter_sends++;
+	if (act == 6 && ++retrieves > 300 && !flood) { flood = true; cnt["obs_lretrieve_flood_runs"]++; }   // Byzantine huge-s slot on a FIFO channel: unbounded l-retrieve traffic, run is cut
 	if (act >= 0 && act <= 9) cnt[std::string("sent_") + ACTN[act]]++;
 	std::string tk = tagkey(f);
 	if (act == 1) {
